@@ -19,6 +19,7 @@ class Harness:
     def __init__(self, file, module, group, size, fn, props, tier, spin_violation, asserts):
         self.file, self.module, self.group, self.size, self.fn = file, module, group, size, fn
         self.props, self.tier, self.spin_violation, self.asserts = props, tier, spin_violation, asserts
+        self.jobs = 16
 
     @property
     def full(self):
@@ -39,6 +40,8 @@ def load_registry():
             continue
         file = name[:-3]
         module, sizes, group, pending = None, {}, None, None
+        mj = re.search(r"^//\s*@jobs\s+(\d+)", text, re.M)
+        file_jobs = int(mj.group(1)) if mj else 16
         lines = text.splitlines()
         for i, line in enumerate(lines):
             s = line.strip()
@@ -74,9 +77,13 @@ def load_registry():
                     if group not in sizes:
                         raise Undecided(f"{name}: @sizes for group {group} missing")
                     for size, tier in sizes[group]:
+                        if pending["tier"] == "thorough":      # per-harness override: too expensive for the quick tier at any size
+                            tier = "thorough"
                         out.append(Harness(file, module, group, size, fn, pending["props"], tier, pending["spin"], asserts))
+                        out[-1].jobs = file_jobs
                 else:
                     out.append(Harness(file, module, None, None, fn, pending["props"], pending["tier"], pending["spin"], asserts))
+                    out[-1].jobs = file_jobs
                 pending = None
     return out
 
@@ -109,8 +116,18 @@ class _Lock:
         self.f.close()
 
 
-def run_batch(harnesses, jobs=16, extra=None, timeout=None):
-    """one `cargo kani` invocation over the real crate; returns (results: full-name -> dict, raw output, cmd)"""
+def run_batch(harnesses, jobs=None, extra=None, timeout=None):
+    """`cargo kani` over the real crate, one invocation per parallelism class (memory-hungry harness files declare `// @jobs n`);
+    returns (results: full-name -> dict, raw output, cmd, wall)"""
+    if jobs is None:
+        classes = sorted({h.jobs for h in harnesses}, reverse=True)
+        if len(classes) > 1:
+            res, raws, cmds, wall = {}, [], [], 0.0
+            for j in classes:
+                r, raw, cmd, w = run_batch([h for h in harnesses if h.jobs == j], jobs=j, extra=extra, timeout=timeout)
+                res.update(r); raws.append(raw); cmds.append(cmd); wall += w
+            return res, "\n".join(raws), " ; ".join(cmds), wall
+        jobs = classes[0] if classes else 16
     cmd = ["cargo", "kani"] + KANI_FLAGS + ["-j", str(jobs), "--output-format", "terse", "--exact"]
     for h in harnesses:
         cmd += ["--harness", h.full]
